@@ -72,6 +72,7 @@ class AbstractDenseTimeOnlineInterpreter(AbstractOnlineInterpreter, DenseTimeInt
             var_object = data[1]
             if data[0] in self.ast.free_vars:
                 self.ast.var_object_dict[var_name] = var_object
+                self.ast.unread_inputs[var_name] = var_object
                 if var_name in self.online_operator_dict:
                     self.online_operator_dict[var_name].sample = var_object
 
